@@ -57,6 +57,9 @@ type c16Case struct {
 	// ListenerCloseFails: the listener's Close does close it but reports an error of its own (Shutdown may hand that error
 	// on; everything it promises about the state after its return holds all the same)
 	ListenerCloseFails bool `json:"listener_close_reports_an_error,omitempty"`
+	// TerminateHookMs: the terminate hook takes that long (it writes an audit record, it closes a session elsewhere); the
+	// connection's goroutine is inside it meanwhile
+	TerminateHookMs int `json:"terminate_hook_takes_ms,omitempty"`
 }
 
 type ctxConnID struct{}
@@ -194,6 +197,9 @@ func c16Bubble(c c16Case) c08Result {
 	})
 	terminateHook := kmipserver.TerminateHook(func(ctx context.Context) {
 		id, ok := ctx.Value(ctxConnID{}).(int)
+		if c.TerminateHookMs > 0 {
+			time.Sleep(time.Duration(c.TerminateHookMs) * time.Millisecond)
+		}
 		lg.mu.Lock()
 		if !ok {
 			id = -1
@@ -599,6 +605,7 @@ func TestC16Shutdown(t *testing.T) {
 		c.TLS = rapid.IntRange(0, 2).Draw(rt, "tls") == 0
 		c.ListenerClosedError = rapid.SampledFrom([]string{"", "", "bare", "wrapped"}).Draw(rt, "listener-closed-error")
 		c.ListenerCloseFails = rapid.IntRange(0, 3).Draw(rt, "listener-close-fails") == 0
+		c.TerminateHookMs = rapid.SampledFrom([]int{0, 0, 400, 5000}).Draw(rt, "terminate-hook-ms")
 		key, _ := json.Marshal(c)
 		var labels []string
 		labels = append(labels, fmt.Sprintf("second-shutdown=%v", c.SecondShutdownMs > 0), fmt.Sprintf("hooks-reversed=%v", c.HooksReversed), fmt.Sprintf("tls=%v", c.TLS))
